@@ -13,7 +13,7 @@ const char *stdout_branch_marker = nullptr;
 const double numeric_rel_tol = 0;
 const double conditioning_gate = 1e-2;
 
-enum { V_IMC = 1, V_MAP = 2, V_TWO = 4, V_GRID_SIMPLE = 8 };
+enum { V_IMC = 1, V_MAP = 2, V_TWO = 4, V_GRID_SIMPLE = 8, V_BONDED = 16 };
 
 void tool_generate(Plan &p, sim::Rng &r, const std::string &) {
   p.variant = 0;
@@ -21,13 +21,14 @@ void tool_generate(Plan &p, sim::Rng &r, const std::string &) {
   if (r.chance(0.3)) p.variant |= V_MAP;
   if (r.chance(0.4)) p.variant |= V_TWO;
   if (r.chance(0.2)) p.variant |= V_GRID_SIMPLE;
+  if (r.chance(0.4)) p.variant |= V_BONDED;
   p.block = r.chance(0.35) ? 1 + (int)r.below(3) : 0;
 }
 
 js::Value tool_variant_json(const Plan &p) {
   js::Value v = js::Value::obj();
   v.set("do_imc", (p.variant & V_IMC) != 0).set("mapping", (p.variant & V_MAP) != 0).set("two_types", (p.variant & V_TWO) != 0)
-   .set("nbsearch_simple", (p.variant & V_GRID_SIMPLE) != 0).set("block_length", p.block);
+   .set("nbsearch_simple", (p.variant & V_GRID_SIMPLE) != 0).set("bonded", (p.variant & V_BONDED) != 0).set("block_length", p.block);
   return v;
 }
 
@@ -51,7 +52,25 @@ void tool_build(const Plan &p, Case &c) {
   bool imc = p.variant & V_IMC, map = p.variant & V_MAP, two = (p.variant & V_TWO) && !map && p.chain >= 2;
   double box = 1.7 + 0.1 * (double)(p.case_seed % 6);
   double max = 0.6, step = 0.05;
-  c.files["topol.xml"] = gen_topology_xml(p, two);
+  // bonded: the topology carries a <bonded> section (bonds, and angles for chains of >= 3 beads), which also
+  // creates exclusions for the non-bonded search; without mapping the bonded distributions are evaluated too
+  bool bonded = (p.variant & V_BONDED) != 0;
+  std::string top = gen_topology_xml(p, two);
+  if (bonded) {
+    auto bname = [&](int b) { return std::string("MOL:") + ((two && (b % 2)) ? "B" : "A") + std::to_string(b + 1); };
+    std::ostringstream b;
+    b << " <bonded>\n  <bond>\n   <name>bond1</name>\n   <beads>\n";
+    for (int k = 0; k + 1 < p.chain; k++) b << "    " << bname(k) << " " << bname(k + 1) << "\n";
+    b << "   </beads>\n  </bond>\n";
+    if (p.chain >= 3) {
+      b << "  <angle>\n   <name>angle1</name>\n   <beads>\n";
+      for (int k = 0; k + 2 < p.chain; k++) b << "    " << bname(k) << " " << bname(k + 1) << " " << bname(k + 2) << "\n";
+      b << "   </beads>\n  </angle>\n";
+    }
+    b << " </bonded>\n";
+    top.insert(top.rfind("</topology>"), b.str());
+  }
+  c.files["topol.xml"] = top;
   std::string trj = p.fmt == 0 ? "traj.vdump" : "traj.vgro";
   c.files[trj] = gen_trajectory(p, box, p.nmol * p.chain);
   std::ostringstream opt;
@@ -59,6 +78,16 @@ void tool_build(const Plan &p, Case &c) {
   if (p.variant & V_GRID_SIMPLE) opt << " <nbsearch>simple</nbsearch>\n";
   opt << interaction("A-A", "A", "A", max, step, imc, "g1");
   if (two) opt << interaction("A-B", "A", "B", 0.5, 0.1, imc, (p.case_seed & 64) ? "g1" : "g2");
+  if (bonded && !map) {
+    opt << " <bonded>\n  <name>bond1</name>\n  <min>0.0</min>\n  <max>0.3</max>\n  <step>0.01</step>\n";
+    if (imc) opt << "  <inverse><imc><group>none</group></imc></inverse>\n";
+    opt << " </bonded>\n";
+    if (p.chain >= 3) {
+      opt << " <bonded>\n  <name>angle1</name>\n  <min>0.0</min>\n  <max>3.15</max>\n  <step>0.05</step>\n";
+      if (imc) opt << "  <inverse><imc><group>none</group></imc></inverse>\n";
+      opt << " </bonded>\n";
+    }
+  }
   opt << "</cg>\n";
   c.files["settings.xml"] = opt.str();
   if (imc) {
